@@ -637,7 +637,8 @@ def run(idx, rep, tier):
     # C04.R5: the trusted sets come from known_hosts matching; its
     # classification / negation / port rules are C17.R1-R2
     from .c17 import (r1 as c17r1, r2 as c17r2, wildcard_witnesses,
-                      port_fallback, build_pattern_witnesses)
+                      port_fallback, build_pattern_witnesses,
+                      no_empty_host_name)
     rep.rule('C04.R5', 'known_hosts pattern and classification rules '
              '(= C17.R1, C17.R2, wildcard witnesses of C17.R5): a negated '
              'element excludes the line, markers select the right trust '
@@ -648,5 +649,6 @@ def run(idx, rep, tier):
     wildcard_witnesses(k, 'C04.R5')
     port_fallback(k, 'C04.R5')
     build_pattern_witnesses(k, 'C04.R5')
+    no_empty_host_name(k, 'C04.R5')
     for o in rep.obligations[before:]:
         o.rule = 'C04.R5'
